@@ -277,6 +277,28 @@ def w_pairs(ctx, rng, i):
                    sample={"a": ka, "b": kb, "dims": d, "direction": direction, "inplace": inplace} if i < 5 else None)
 
 
+IDENT = ["identity:" + c for c in ("Homogeneous", "Affine", "Similarity", "Rotation", "Translation", "UniformScale", "NonUniformScale")]
+
+
+def w_identities(ctx, rng, i):
+    """init_identity of every class composed with every kind, both sides: the other operand's map, an honest class."""
+    d = 2 + i % 2
+    K = tx.kinds(d)
+    ident = IDENT[(i // 2) % len(IDENT)]
+    other = K[(i // (2 * len(IDENT))) % len(K)]
+    a, _ = tx.make(rng, ident, d)
+    b, _ = tx.make(rng, other, d)
+    x = probe_pts(d)
+    if tx.maxdiff(a.apply(x), x) > 0:
+        ctx.fail("init_identity_is_not_the_identity", cls=type(a).__name__)
+    if tx.honest(a):
+        ctx.fail("result_class_is_not_honest", cls=type(a).__name__, mech="init_identity")
+    for first, second in ((a, b), (b, a)):
+        first.compose_before(second)
+        first.compose_after(second)
+    ctx.count_case(("identity", ident, other, d), nontrivial=True)
+
+
 def w_programs(ctx, rng, i):
     """Random sequences of compose calls; the final map equals sequential application of clones of the operands."""
     import menpo.transform as mt
@@ -340,4 +362,5 @@ def w_programs(ctx, rng, i):
 WORKLOADS = [
     Workload("pairs", w_pairs, quick=2 * (17 * 17 + 14 * 14) * 4, thorough=2 * 17 * 17 * 4 * 40),
     Workload("programs", w_programs, quick=1500, thorough=80000),
+    Workload("identities", w_identities, quick=2 * 7 * 17, thorough=2 * 7 * 17 * 10),
 ]
